@@ -50,6 +50,7 @@ structure St where
   clos : List RClos := []              -- closure table; `Val.clos _ _ id` has id = index + 1
   out : List String := []              -- lines written by `puts` (newest first)
   bvars : List (String × Val) := []    -- builtin variables (NP, PL, WL, TSS, TSU) when set
+  active : List Nat := []              -- closure ids of the activations currently running (innermost first)
 
 inductive Err where
   | rt (line : Nat)     -- runtime error raised by the construct on `line`
@@ -359,9 +360,13 @@ def evalE : Nat → Env → Expr → M (R Val)
             | none => throw .unc
           | some (.cap _) =>
             -- assignment to a captured copy: the rest of this activation (and closures it creates)
-            -- sees the new value; what later activations of the same closure see is not specified
+            -- sees the new value; what LATER activations of the same closure see is not specified
+            -- (their copy is poisoned); while an EARLIER activation of the same closure object is
+            -- still running (the closure id occurs twice among the active ones), what that
+            -- activation reads afterwards is not specified either: the assignment itself is `unc`
             match lookupEnv selfKey env, updEnvCap name v env with
             | some (.cap (.clos _ _ id)), some env' => do
+              if (← get).active.count id ≥ 2 then throw .unc
               modify fun s => { s with clos := s.clos.modify (id - 1) fun c =>
                 { c with captured := (name, .cap (.other "poison")) :: c.captured } }
               pure (.val v env')
@@ -475,7 +480,10 @@ def callValue : Nat → Nat → Val → List Val → M Val
         let paramScope : Scope := (c.params.zip vargs).map fun (n, v) => (n, .l v)
         -- later parameters shadow earlier ones of the same name
         let env : Env := [paramScope.reverse, self, (selfKey, .cap vf) :: c.captured]
+        -- this closure object is running from here to the end of the body
+        modify fun s => { s with active := id :: s.active }
         let (flow, v, _) ← evalBlock fuel env c.body
+        modify fun s => { s with active := s.active.tail }
         match flow with
         | .ret r => pure r
         | .normal =>
